@@ -74,7 +74,11 @@ TreePairs ==
       b3 |-> <<F(<<"config", "log4j2.properties">>, "text", "T2")>>],
      [b1 |-> <<F(<<"config", "a", "b", "deep.properties">>, "text", "T2"), F(<<"top.yml">>, "text", "T3")>>,
       b2 |-> <<F(<<"config", "a", "b", "deep.properties">>, "text", "T1"), F(<<"config", "a", "other.bin">>, "binary", "B1")>>,
-      b3 |-> <<F(<<"top.yml">>, "text", "T1")>>]}
+      b3 |-> <<F(<<"top.yml">>, "text", "T1")>>],
+     \* template files that render to nothing (Blank): alone at their path, provided by two bases, appended to / before a non-empty one
+     [b1 |-> <<F(PYml, "text", "T1"), F(<<"config", "jvm.options.d", "gc.options">>, "text", "E1"), F(<<"config", "roles.yml">>, "text", "E2")>>,
+      b2 |-> <<F(PYml, "text", "E1"), F(<<"config", "roles.yml">>, "text", "E3"), F(<<"config", "log4j2.properties">>, "text", "E3")>>,
+      b3 |-> <<F(<<"config", "log4j2.properties">>, "text", "T2"), F(PNotice, "text", "E2")>>]}
 
 SeqsUpTo(A, n) == UNION {[1..m -> A] : m \in 0..n}
 UniverseP(bnames, maxBases, maxCars) ==
